@@ -125,11 +125,47 @@ func literalPins(s *hx.Schema) (syms, keys map[string]bool) {
 	return
 }
 
+// narrowPins collects the memberships an implementing object relies on when it narrows an
+// abstract typed interface field ("U.M": M must be a member of union U, "T implements I"): those
+// stay in the base definitions so that every interim schema satisfies its interfaces.
+func narrowPins(s *hx.Schema) map[string]bool {
+	pins := map[string]bool{}
+	for _, td := range s.Types {
+		if td.Kind != hx.KObject && td.Kind != hx.KInterface {
+			continue
+		}
+		for _, in := range td.Interfaces {
+			it := s.Type(in)
+			if it == nil {
+				continue
+			}
+			for _, f := range it.Fields {
+				of := td.Field(f.Name)
+				if of == nil {
+					continue
+				}
+				from, to := f.Type.BaseName(), of.Type.BaseName()
+				if from == to {
+					continue
+				}
+				switch s.KindOf(from) {
+				case hx.KUnion:
+					pins[from+"."+to] = true
+				case hx.KInterface:
+					pins[to+" implements "+from] = true
+				}
+			}
+		}
+	}
+	return pins
+}
+
 // Arrange renders the schema as a drawn arrangement: definitions permuted, members moved into
 // extend blocks, pieces distributed over 1-4 successive documents such that every interim schema is
 // well-formed (references, extension targets, interface bundles and literal members available).
 func Arrange(t *rapid.T, s *hx.Schema, o hx.SDLOpts, label string, allowExtend bool, maxDocs int) *Arrangement {
 	syms, keys := literalPins(s)
+	npins := narrowPins(s)
 	var pieces []Piece
 	mk := func(text, defines, extends string, n needSet) {
 		if extends != "" {
@@ -203,6 +239,9 @@ func Arrange(t *rapid.T, s *hx.Schema, o hx.SDLOpts, label string, allowExtend b
 			ifaceOf := map[string]int{}
 			for _, in := range td.Interfaces {
 				w := where(lab + "impl" + in)
+				if npins[td.Name+" implements "+in] {
+					w = 0
+				}
 				if w == 0 {
 					base.Interfaces = append(base.Interfaces, in)
 				} else {
@@ -280,7 +319,7 @@ func Arrange(t *rapid.T, s *hx.Schema, o hx.SDLOpts, label string, allowExtend b
 			base.Members = nil
 			for i, m := range td.Members {
 				w := 0
-				if i > 0 {
+				if i > 0 && !npins[td.Name+"."+m] {
 					w = where(lab + "m" + m)
 				}
 				if w == 0 {
@@ -405,6 +444,26 @@ func Arrange(t *rapid.T, s *hx.Schema, o hx.SDLOpts, label string, allowExtend b
 	}
 	arr.Splits = len(arr.Docs) - 1
 	return arr
+}
+
+// ExtendsLast regroups an arrangement into two loads: every definition first, then a load that
+// holds nothing but the extend blocks (it adds members to known types and no type of its own).
+// Returns nil when the arrangement has no extend block.
+func ExtendsLast(a *Arrangement) []string {
+	var defs, exts strings.Builder
+	for _, d := range a.Docs {
+		for _, p := range d {
+			if p.Extends != "" {
+				exts.WriteString(p.Text)
+			} else {
+				defs.WriteString(p.Text)
+			}
+		}
+	}
+	if exts.Len() == 0 {
+		return nil
+	}
+	return []string{defs.String(), exts.String()}
 }
 
 func indices(n int) []int {
